@@ -80,9 +80,11 @@ class CallMixin:
     def b_isinstance(self, ex, st, node, args, kwargs):
         o, c = args
         orf = self.to_ref(st, o)
-        if c.kind == "static" and isinstance(c.py, tuple):
-            return [(st, vbool(z3.Or([ISINST(orf, self.to_ref(st, x)) for x in c.py])))]
-        return [(st, vbool(ISINST(orf, self.to_ref(st, c))))]
+        classes = list(c.py) if (c.kind == "static" and isinstance(c.py, tuple)) else [c]
+        res = z3.Or([ISINST(orf, self.to_ref(st, x)) for x in classes])
+        if not any(x.t.eq(clsref("object")) for x in classes if x.t is not None):
+            st.assume(z3.Implies(res, orf != NONE))  # None is an instance of NoneType and object only
+        return [(st, vbool(res))]
 
     def b_hasattr(self, ex, st, node, args, kwargs):
         o, a = args
@@ -143,6 +145,10 @@ class CallMixin:
     def b_enumerate(self, ex, st, node, args, kwargs):
         return [(st, V("static", None, Marker("enumerate", args[0])))]
 
+    def b_issubclass(self, ex, st, node, args, kwargs):
+        f = z3.Function("issubclass", I, I, B)
+        return [(st, vbool(f(self.to_ref(st, args[0]), self.to_ref(st, args[1]))))]
+
     def b_callable(self, ex, st, node, args, kwargs):
         raise Unsupported("callable()")
 
@@ -180,6 +186,21 @@ class CallMixin:
         x = args[0].t if args[0].kind == "int" else self.to_ref(st, args[0])
         st.put("set", recv.t, z3.Store(st.get("set", recv.t), x, z3.BoolVal(False)))
         return [(st, VNONE)]
+
+    def m_index(self, st, node, recv, args, kwargs):
+        """list.index(x) on a list without repeated elements (obligation): position of x, ValueError if absent."""
+        from .base import LIST_INDEX, distinct_elements
+        seq = st.get("list", recv.t)
+        x = self.to_ref(st, args[0])
+        self.oblige(st, "list.index#%d.list_has_no_repeated_elements" % self.ordinal("lindex"), distinct_elements(seq, recv.t), kind="callsite")
+        p = LIST_INDEX(recv.t, x)
+        out = []
+        for s, has in self.fork(st, z3.And(p >= 0, p < z3.Length(seq), seq[p] == x), "index_found"):
+            if has:
+                out.append((s, vint(p)))
+            else:
+                out.append((s, Raise(self.new_exception(s, "ValueError"))))
+        return out
 
     def m_items(self, st, node, recv, args, kwargs):
         return [(st, V("ref", recv.t, "dict_items"))]
